@@ -295,13 +295,43 @@ def check(ctx) -> None:
                     ctx.finding("C11-X10", "%s:unpack-of-empty-zip" % g.qualname.split("synrbl.", 1)[-1].split(".")[-1], g.loc(n), "%s unpacks zip(*..) of %s without an emptiness test: when every reaction that reached the MCS stage failed or timed out the list is empty, the ValueError escapes the stage and the whole batch is dropped" % (g.name, sorted(srcs)))
     if n_x10 == 0:
         ctx.note("C11-X10: no unpacking of zip(*records) in the stage functions on this tree")
+    # ---------------------------------------------------------------- X11
+    # the search conditions are a table of dicts with different key sets (the MCES condition has no ring options); stage
+    # code that runs outside the per-row handlers may subscript a condition only with keys every condition has
+    ctx.rule("C11-X11", "a search condition is subscripted only with keys that every condition of the table defines", 1)
+    ms_init = prog.func("synrbl.mcs_search.MCSSearch.__init__")
+    table = None
+    for n in own_nodes(ms_init.node):
+        if isinstance(n, ast.Assign) and any(isinstance(t, ast.Attribute) and t.attr == "conditions" for t in n.targets) and isinstance(n.value, (ast.List, ast.Tuple)):
+            table = [d for d in n.value.elts if isinstance(d, ast.Dict)]
+    ctx.require(table, "MCSSearch.__init__ no longer defines the conditions table as a list of dict displays")
+    common = None
+    for d in table:
+        ks = {const_str(k) for k in d.keys if k is not None}
+        common = ks if common is None else (common & ks)
+    ens = prog.func("synrbl.SynMCSImputer.SubStructure.mcs_process.ensemble_mcs")
+    cond_vars = set()
+    for l in own_nodes(ens.node):
+        if isinstance(l, (ast.For, ast.comprehension)) and any(isinstance(x, ast.Name) and x.id == "conditions" for x in ast.walk(l.iter)):
+            cond_vars |= {x.id for x in ast.walk(l.target) if isinstance(x, ast.Name)}
+    n_x11 = 0
+    for n in own_nodes(ens.node):
+        if isinstance(n, ast.Subscript) and isinstance(n.ctx, ast.Load) and isinstance(n.value, ast.Name) and n.value.id in cond_vars and const_str(n.slice) is not None:
+            n_x11 += 1
+            k = const_str(n.slice)
+            ok_t, _t = _covered(n, ens, {"KeyError"})
+            ok = k in common or ok_t
+            ctx.instance("C11-X11", "ensemble_mcs reads condition[%r] (keys of every condition: %s)" % (k, sorted(common)), ens.loc(n), ok=ok)
+            if not ok:
+                ctx.finding("C11-X11", "mcs_process.ensemble_mcs:condition-key:%s" % k, ens.loc(n), "ensemble_mcs reads condition[%r], a key that not every search condition defines (common keys: %s): for the condition without it the KeyError leaves the MCS stage and the whole batch is dropped" % (k, sorted(common)))
+    ctx.instance("C11-X11", "%d constant-key read(s) of a condition in ensemble_mcs; table of %d conditions" % (n_x11, len(table)), ens.loc(), ok=True)
     # ---------------------------------------------------------------- X7
     # the per-row jobs keep no state between calls: an outcome that depends on the clock (a timeout) must not be
     # remembered and replayed for other rows (shared with C06-B4, restricted to what the jobs reach)
     from . import c06
 
-    job_scope = ctx.res.reachable([f.qualname for f, _ in jobs if f.qualname != RUN], ctx.graph)
-    c06.rule_b4(ctx, {q for q in job_scope if q.startswith("synrbl.SynMCSImputer.")}, "C11-X7", class_level=False)
+    job_scope = ctx.res.reachable([f.qualname for f, _ in jobs if f.qualname != RUN] + ["synrbl.mcs_search.MCSSearch.find"], ctx.graph)
+    c06.rule_b4(ctx, {q for q in job_scope if q.startswith("synrbl.SynMCSImputer.") or q.startswith("synrbl.mcs_search.")}, "C11-X7", class_level=False)
     # ---------------------------------------------------------------- X5
     ctx.rule("C11-X5", "every per-row job waits on a private one-thread pool that is created and terminated inside the job", 2)
     for f, _ in jobs:
